@@ -5,7 +5,7 @@ CONSTANTS
   Kind = "nameaddr"
   Atoms <- AtomsQuoteV
   Prefix <- PfxAVal
-  MaxLen = 9
+  MaxLen = 10
   Cfgs <- CfgsNA8
   Junk = 34
   EmitOn = TRUE
